@@ -24,6 +24,9 @@ computes, one operator at a time, applied to every eligible site of one file:
   empty-literal-calls []  / {}                 -> list() / dict()
   numpy-alias       np.f(...)                  -> numpy.f(...)  (import numpy added)
   len-zero          len(x) == 0 (in a test)    -> not len(x)
+  swap-independent  x = e1 ; y = e2            -> y = e2 ; x = e1   (independent, call-free)
+  add-asserts       a trivially true assert at the top of every function
+  isinstance-split  isinstance(x, (A, B))      -> isinstance(x, A) or isinstance(x, B)
 
 Each variant is written to a scratch tree (mkdtemp outside /repo and /verif;
 other files symlinked) and the check is run on it: it must exit 0.  A non-zero
@@ -410,7 +413,67 @@ def op_len_zero(fn):
     return n
 
 
+def _names(e, ctxs):
+    return {x.id for x in ast.walk(e) if isinstance(x, ast.Name) and isinstance(x.ctx, ctxs)}
+
+
+def op_swap_independent(fn):
+    """x = e1 ; y = e2  ->  y = e2 ; x = e1   when neither reads or writes what the other writes and
+    neither right-hand side contains a call (evaluation order of effects is untouched)."""
+    n = 0
+    for body in list(_body_lists(fn)):
+        i = 0
+        while i + 1 < len(body):
+            a, b = body[i], body[i + 1]
+            ok = all(isinstance(x, ast.Assign) and len(x.targets) == 1 and isinstance(x.targets[0], ast.Name)
+                     and not any(isinstance(y, (ast.Call, ast.Yield, ast.YieldFrom, ast.Await, ast.NamedExpr, ast.Subscript))
+                                 for y in ast.walk(x.value)) for x in (a, b))
+            if ok:
+                wa, wb = a.targets[0].id, b.targets[0].id
+                ra, rb = _names(a.value, ast.Load), _names(b.value, ast.Load)
+                if wa != wb and wa not in rb and wb not in ra:
+                    body[i], body[i + 1] = b, a
+                    n += 1
+                    i += 2
+                    continue
+            i += 1
+    return n
+
+
+def op_add_asserts(fn):
+    n = 0
+    for f in ast.walk(fn):
+        if isinstance(f, (ast.FunctionDef, ast.AsyncFunctionDef)) and f.args.args:
+            k = 1 if (f.body and isinstance(f.body[0], ast.Expr) and isinstance(f.body[0].value, ast.Constant)) else 0
+            name = f.args.args[-1].arg
+            f.body.insert(k, ast.copy_location(ast.parse(f'assert {name} is not None or {name} is None').body[0], f.body[0]))
+            n += 1
+    return n
+
+
+def op_isinstance_split(fn):
+    n = 0
+    for x in ast.walk(fn):
+        for field, val in ast.iter_fields(x):
+            vals = val if isinstance(val, list) else [val]
+            for k, c in enumerate(vals):
+                if isinstance(c, ast.Call) and isinstance(c.func, ast.Name) and c.func.id == 'isinstance' and len(c.args) == 2 \
+                        and isinstance(c.args[1], ast.Tuple) and len(c.args[1].elts) == 2 \
+                        and isinstance(c.args[0], (ast.Name, ast.Attribute)):
+                    new = ast.BoolOp(ast.Or(), [ast.Call(ast.Name('isinstance', ast.Load()), [copy.deepcopy(c.args[0]), e], [])
+                                                for e in c.args[1].elts])
+                    if isinstance(val, list):
+                        val[k] = new
+                    else:
+                        setattr(x, field, new)
+                    n += 1
+    return n
+
+
 OPS = {
+    'swap-independent': op_swap_independent,
+    'add-asserts': op_add_asserts,
+    'isinstance-split': op_isinstance_split,
     'drop-else-after-leave': op_drop_else_after_leave,
     'else-after-guard-clause': op_else_after_guard_clause,
     'de-morgan': op_de_morgan,
